@@ -70,9 +70,13 @@ def to_spec(topology, root=0, embedding="self", flavours=None, future=False, mod
             return {"k": "ref", "name": names[i], "mod": mods[i]}
         defined.add(i)
         fields = [{"n": "v", "t": {"k": "scalar", "t": "int"}}, {"n": "d", "t": {"k": "scalar", "t": "Decimal"}}]
+        fl = flavours[i]
         for j, (target, kind) in enumerate(topology[i]):
             fields.append({"n": f"e{j}", "t": edge(kind, cls(target), mods[i], target)})
-        fl = flavours[i]
+            if fl == "typeddict" and not future and (i + j) % 2 == 0:
+                # the links of a TypedDict node are what one leaves out: NotRequired next to the required payload keys
+                # (deep values carry them all the same: a not-required key that IS present)
+                fields[-1]["notreq"] = True
         c_ = {"k": "class", "name": names[i], "mod": mods[i], "flavour": fl, "future": future, "fields": fields}
         if nest and nest[i]:
             c_["nest"] = True     # the class is declared in the body of another class (qualified name with a dot)
